@@ -85,7 +85,7 @@ fn check<T: Fl>(kind: Kind, got: T, ex: &Expect, ctx: &dyn Fn() -> String, lx: &
         }
         Expect::Finite { value, tol } => {
             lx.ratio(&format!("{:?}", kind), (g - value).abs() / tol);
-            lx.check((g - value).abs() <= *tol, key, || format!("[{}] {:?} = {:e}, exact sum of terms {:e}, tolerance {:e}; {}", T::NAME, kind, g, value, tol, ctx()));
+            lx.within((g - value).abs(), *tol, key, || format!("[{}] {:?} = {:e}, exact sum of terms {:e}, tolerance {:e}; {}", T::NAME, kind, g, value, tol, ctx()));
         }
     }
 }
@@ -192,7 +192,7 @@ fn run<T: Fl>(c: &Case, lx: &mut Local) {
                         let lhs = gc.to_f64_();
                         let rhs = hv + gk.to_f64_();
                         // H(p,q) = H(p) + KL(p,q): p ln q = p ln p + p ln(q/p) term by term, each identity holds within the per-term slack
-                        lx.check((lhs - rhs).abs() <= tc + tk + 2.0 * th, "C10/cross-entropy-identity", || format!("[{}] H(p,q) = {:e} but H(p) + KL(p,q) = {:e} + {:e}; {}", T::NAME, lhs, hv, gk.to_f64_(), ctx()));
+                        lx.within((lhs - rhs).abs(), tc + tk + 2.0 * th, "C10/cross-entropy-identity", || format!("[{}] H(p,q) = {:e} but H(p) + KL(p,q) = {:e} + {:e}; {}", T::NAME, lhs, hv, gk.to_f64_(), ctx()));
                         if c.normalised {
                             lx.check(gk.to_f64_() >= -(tk + 8.0 * u), "C10/kl-negative", || format!("[{}] KL(p,q) = {:e} < 0 for normalised p, q; {}", T::NAME, gk.to_f64_(), ctx()));
                         }
